@@ -26,14 +26,22 @@ META = {
              "the proto names, any other number as no operator), gw_refines (Gateway.PatchTreasures and PatchExpiredTreasures / "
              "applyPatchExpiredOne do to the treasure what PatchFields does with the operators the request means), WireHolds is part "
              "of the decided statement; witness_wire_truncated (unchecked cast: 256 = SET, 257 = NOT_EQUAL) and witness_wire_swapped; "
-             "every PatchFields line of the run is also sent through both RPCs with proto enum numbers (`gp` / `gx` lines)."),
+             "every PatchFields line of the run is also sent through both RPCs with proto enum numbers (`gp` / `gx` lines). "
+             "SeedIsMap (pfGate_created_map: a treasure is only ever created from a msgpack map — `non-map seeds yield TYPE_MISMATCH`; "
+             "witness_nonmap_seed for the code that only parses the seed) is part of the decided statement as well."),
     "note": ("Trusted: Lean kernel (propext, Classical.choice, Quot.sound); extract/c13.go; harness/c13.go; checks/C13.py. The model "
              "mirrors vmihailenco/msgpack v5.4.1 (Skip, DecodeMapLen/ArrayLen/String, generic Unmarshal with only the time extension "
              "registered) — validated by the correspondence run, not proved. PLATFORM ASSUMPTION: the payload bits of a NaN produced by INC (x + NaN, Inf + -Inf, float32(NaN)) are not defined by the Go "
              "spec; the model states the amd64 SSE2 rule (first NaN operand, quieted; default NaN fff8…), but the correspondence does not "
              "assert it: every op line whose INC may meet NaN / ±Inf is an `apn` line, for which both sides print NaN leaves as the "
-             "canonical quiet NaN (compared as \"is NaN\"). apply_wf "
-             "assumes no container is pushed past 2^32-1 children and paths shorter than 2^32 bytes. ERROR CLASSES: apply_error_class proves that a documented "
+             "canonical quiet NaN (compared as \"is NaN\"). EXPLICIT EXCLUSIONS of apply_wf / "
+             "apply_refines_spec / apply_error_class (RefinesSpec, SuccessWf, ErrorClassAgrees in Holds): (hpaths) an op whose path is "
+             "2^32 bytes or longer, and (hsize) a patch for which (largest child count of any map / array in the parsed body) + "
+             "(number of ops + number of MERGE fields) reaches 2^32 — i.e. a container that could be pushed to 2^32-1 children, where "
+             "the msgpack header can no longer express the count (EncodeMapLen / EncodeArrayLen truncate to 32 bits). Both need a "
+             "single request of 4 GiB or more (one byte per child at least; the path itself), which neither gRPC nor the 32-bit "
+             "length prefixes of the store admit: they are unreachable and NOT covered by any theorem, witness or test here; nothing "
+             "is claimed about the code's behaviour on them. ERROR CLASSES: apply_error_class proves that a documented "
              "failure of class c (Spec.refOps) is a failure of class c of the model (and op_agrees / applyOps_agrees the converse), "
              "for all op kinds, when (a) MERGE values are ones the code accepts and (b) no op runs after a same-patch container "
              "splice (NoSplice; finding C13-spliced-value-opaque otherwise). Ambiguous in the docs, tested only: a rejected MERGE "
@@ -59,6 +67,9 @@ FINDINGS = {
     "C13-wire-enum-misaligned": "the Go const block of msgpackpatch.OpKind / CondOp is not in the order of the proto enum: a wire operator "
                                 "reaches the engine as another operator (PatchTreasures / PatchExpiredTreasures only; PatchFields callers "
                                 "that use the Go names are unaffected)",
+    "C13-nonmap-seed-created": "PatchFields only checks that InitialMsgpackOnCreate parses: with CreateIfNotExist, seed 0x01 (or an array, a "
+                               "string) and no op that touches the root, the missing key is reported CREATED and the treasure's body is "
+                               "that non-map value (documented twice: `Must be a msgpack-encoded map; non-map seeds yield TYPE_MISMATCH`)",
     "C13-status-mapping": "classifyPatchError maps a msgpackpatch error class to another PatchFields status than documented "
                           "(CONDITION_NOT_MET / TYPE_MISMATCH / PATH_INVALID for path and invalid-op / ENCODING_NOT_SUPPORTED)",
     "C13-spliced-value-opaque": "a map / array value stored by SET / APPEND / PREPEND / MERGE is an opaque leaf for the rest of the same patch: "
@@ -909,11 +920,18 @@ def judge_pf(op, rep):
             dec_all(sd)
         except Malformed:
             seed_ok = False
+        seed_map = sd[0] in range(0x80, 0x90) or sd[0] in (0xde, 0xdf)
         if create and not seed_ok:
             want_st, body = 5, None
+        elif create and not seed_map:
+            # "InitialMsgpackOnCreate … Must be a msgpack-encoded map; non-map seeds yield TYPE_MISMATCH" (hydraide.proto,
+            # PatchFieldsOptions).  A success is a deviation; which error a non-map seed AND a bad op / path / unmet
+            # condition give is not ordered by the docs — the reference abstains on other error statuses.
+            if st == 1 and before == "absent":
+                return ("C13-nonmap-seed-created", "%s created the treasure from the seed %s, which is not a msgpack map "
+                        "(documented: TYPE_MISMATCH)" % ("PatchFields" if verb == "pf" else "PatchTreasures", seed.hex()))
+            return None          # (an existing treasure: the seed is not used; the code may or may not look at it)
         elif before == "absent":
-            if sd[0] not in range(0x80, 0x90) and sd[0] not in (0xde, 0xdf):
-                return None          # non-map seed: documented TYPE_MISMATCH, the code only fails once an op touches it
             want_st, body = None, sd
         elif before == "other":
             want_st, body = 5, None
@@ -1011,7 +1029,7 @@ def run(ctx):
                 "magic=" + magic, "removeValCompare=" + facts.get("removeValCompare", "unknown"),
                 "smap=" + ",".join(facts.get(k, "x") for k in ("stCond", "stType", "stPath", "stOp", "stMsgpack", "stNonstr")),
                 "seedDefault=%02x" % int(facts.get("seedDefault", "0") if facts.get("seedDefault", "unknown") != "unknown" else 0)] + \
-               ["%s=%s" % (k, facts.get(k, "unknown")) for k in ("opOrder", "condOrder", "protoOps", "protoConds", "wireConv")]
+               ["%s=%s" % (k, facts.get(k, "unknown")) for k in ("opOrder", "condOrder", "protoOps", "protoConds", "wireConv", "seedMapCheck")]
         c = K.correspondence(ctx, "C13", args, hx_env={"HYDRAIDE_LOG_LEVEL": "error"})
         corrs.append(("C13", args, c))
     else:
